@@ -2,25 +2,1406 @@
 
 package header
 
+// C20, second harness: the header feed that the node wires into the blob service (see /verif/DESIGN.md, C20).
+//
+// The REAL (*Service).Subscribe of this package (the forwarder goroutine: subscription.NextHeader -> blocking send on the
+// unbuffered channel, guarded by the context; deferred Cancel + close) is driven
+//   - alone ("feed" group): the harness is the reader of the channel;
+//   - composed ("compose" group): blob.NewService(nil, getter, byHeight, headerService.Subscribe), wired as in
+//     nodebuilder/blob/module.go, over real squares, 1-2 concurrent blob subscriptions.
+// Scripted: the libhead.Subscriber / Subscription behind the feed (a queue of ready items like a pubsub subscription:
+// headers, or an error), the outcome of every retrieval (the header getter that retrieve calls first blocks until the
+// schedule says fail / ok), the consumer, cancel / service stop / source error at any step - including long outages: a
+// retrieval that keeps failing while the source makes 18..40 further headers ready, and readers that are 17..40 headers
+// behind the feed.
+//
+// L2: every case (events, the observed channel length and the number of headers NextHeader has handed out at every
+//     quiescent point, everything received, how the channels ended) is re-computed by CN.Blob.Feed inside Coq.
+// L3: oracles on the implementation: the i-th response (header) received is the one owed for the i-th header the source
+//     made ready (no gap, duplicate, reorder, wrong blobs); a header handed out by the source that is neither delivered
+//     nor pending anywhere once the forwarder has moved past it is a lost height ("feed:header-dropped" - decided from
+//     counters that are stable while the reader is known not to read: no timing involved); the channels close only with a
+//     cause and do close when they must.
+// All waits are on events; the watchdog fires only on a violation.
+
 import (
+	"context"
+	"errors"
+	"fmt"
+	"os"
+	"runtime"
+	"strconv"
+	"sync"
+	"sync/atomic"
 	"testing"
+	"time"
+	"unsafe"
 
 	"github.com/golang/mock/gomock"
 
+	"github.com/celestiaorg/celestia-app/v9/pkg/wrapper"
+	libhead "github.com/celestiaorg/go-header"
+	libshare "github.com/celestiaorg/go-square/v4/share"
+	"github.com/celestiaorg/rsmt2d"
+
 	"github.com/celestiaorg/celestia-node/blob"
+	"github.com/celestiaorg/celestia-node/header"
 	"github.com/celestiaorg/celestia-node/header/headertest"
+	"github.com/celestiaorg/celestia-node/share"
 	"github.com/celestiaorg/celestia-node/share/eds"
+	"github.com/celestiaorg/celestia-node/share/shwap"
 	"github.com/celestiaorg/celestia-node/share/shwap/getters/mock"
 	zv "github.com/celestiaorg/celestia-node/zzverif"
 )
 
-var _ = blob.NewService
-var _ = headertest.ExtendedHeadersFromEdsses
-var _ = eds.NamespaceData
-var _ = mock.NewMockGetter
-var _ = gomock.Any
+const c20fCoqHeader = `From Coq Require Import List ZArith.
+From CN Require Import Blob.Subscribe Blob.Feed.
+Import ListNotations.
+Open Scope Z_scope.
+`
+
+var c20fWatchdog = 20 * time.Second
+
+const c20fCap = 16
+
+// ---------------------------------------------------------------- the scripted source subscription
+
+type c20fItem struct {
+	h   *header.ExtendedHeader
+	err bool
+}
+
+// c20fSource is one libhead.Subscription: a queue of ready items; NextHeader hands out the oldest one or waits.
+type c20fSource struct {
+	mu      sync.Mutex
+	items   []c20fItem
+	wake    chan struct{}
+	calls   atomic.Int64 // NextHeader calls started
+	taken   atomic.Int64 // headers handed out
+	errs    atomic.Int64 // source errors handed out
+	cancels atomic.Int64 // Cancel() calls
+}
+
+func c20fNewSource() *c20fSource { return &c20fSource{wake: make(chan struct{}, 1)} }
+
+func (s *c20fSource) push(it c20fItem) {
+	s.mu.Lock()
+	s.items = append(s.items, it)
+	s.mu.Unlock()
+	select {
+	case s.wake <- struct{}{}:
+	default:
+	}
+}
+
+func (s *c20fSource) NextHeader(ctx context.Context) (*header.ExtendedHeader, error) {
+	s.calls.Add(1)
+	for {
+		s.mu.Lock()
+		if len(s.items) > 0 {
+			it := s.items[0]
+			s.items = s.items[1:]
+			s.mu.Unlock()
+			if it.err {
+				s.errs.Add(1)
+				return nil, errors.New("scripted source failure")
+			}
+			s.taken.Add(1)
+			return it.h, nil
+		}
+		s.mu.Unlock()
+		select {
+		case <-s.wake:
+		case <-ctx.Done():
+			return nil, ctx.Err()
+		}
+	}
+}
+
+func (s *c20fSource) Cancel() { s.cancels.Add(1) }
+
+// c20fSubscriber is the libhead.Subscriber of the header Service under test; every Subscribe hands out the source prepared
+// for it.
+type c20fSubscriber struct {
+	mu   sync.Mutex
+	next *c20fSource
+}
+
+func (s *c20fSubscriber) Subscribe() (libhead.Subscription[*header.ExtendedHeader], error) {
+	s.mu.Lock()
+	defer s.mu.Unlock()
+	if s.next == nil {
+		return nil, errors.New("no scripted source prepared")
+	}
+	src := s.next
+	s.next = nil
+	return src, nil
+}
+
+func (s *c20fSubscriber) SetVerifier(func(context.Context, *header.ExtendedHeader) error) error {
+	return nil
+}
+
+// ---------------------------------------------------------------- observing a channel's closed flag without receiving
+
+// c20fhchan mirrors the head of runtime.hchan (go1.26: qcount, dataqsiz, buf, elemsize, closed); layout self-tested per run.
+type c20fhchan struct {
+	qcount   uint
+	dataqsiz uint
+	buf      unsafe.Pointer
+	elemsize uint16
+	closed   uint32
+}
+
+func c20fClosedP(p unsafe.Pointer) bool { return atomic.LoadUint32(&(*c20fhchan)(p).closed) != 0 }
+
+func c20fHdrChClosed(ch <-chan *header.ExtendedHeader) bool {
+	return c20fClosedP(*(*unsafe.Pointer)(unsafe.Pointer(&ch)))
+}
+
+func c20fRespChClosed(ch <-chan *blob.SubscriptionResponse) bool {
+	return c20fClosedP(*(*unsafe.Pointer)(unsafe.Pointer(&ch)))
+}
+
+func c20fSelfTest() error {
+	c := make(chan *header.ExtendedHeader, 16)
+	var ro <-chan *header.ExtendedHeader = c
+	h := (*c20fhchan)(*(*unsafe.Pointer)(unsafe.Pointer(&ro)))
+	c <- nil
+	c <- nil
+	if h.qcount != 2 || h.dataqsiz != 16 || c20fHdrChClosed(ro) {
+		return fmt.Errorf("runtime.hchan layout differs (qcount=%d dataqsiz=%d)", h.qcount, h.dataqsiz)
+	}
+	close(c)
+	if !c20fHdrChClosed(ro) || h.qcount != 2 {
+		return errors.New("runtime.hchan layout differs (closed flag)")
+	}
+	u := make(chan *header.ExtendedHeader)
+	var rou <-chan *header.ExtendedHeader = u
+	if c20fHdrChClosed(rou) {
+		return errors.New("runtime.hchan layout differs (unbuffered)")
+	}
+	close(u)
+	if !c20fHdrChClosed(rou) {
+		return errors.New("runtime.hchan layout differs (unbuffered, closed flag)")
+	}
+	return nil
+}
+
+func c20fPause() {
+	runtime.Gosched()
+	time.Sleep(20 * time.Microsecond)
+}
+
+// c20fYield gives the goroutines under test a moment. It synchronises nothing (on the code as it is nothing can happen
+// during it); it only lets a forwarder that does NOT wait for its reader run ahead, so that what it does becomes visible.
+func c20fYield(src *c20fSource, upto int) {
+	for k := 0; k < 300 && int(src.taken.Load()) < upto; k++ {
+		runtime.Gosched()
+	}
+}
+
+// ---------------------------------------------------------------- the block pool (real squares, real headers)
+
+type c20fPool struct {
+	nss     []libshare.Namespace
+	headers []*header.ExtendedHeader
+	edsses  []*rsmt2d.ExtendedDataSquare
+	ids     [][][]int64 // ids[height-1][ns] = ids of the blobs of that namespace at that height, in square order
+}
+
+func c20fID(com []byte) int64 {
+	var x int64
+	for i := 0; i < 6 && i < len(com); i++ {
+		x = x<<8 | int64(com[i])
+	}
+	return x
+}
+
+func c20fBuildPool(t *testing.T, rng *zv.Rand, n int) *c20fPool {
+	p := &c20fPool{}
+	for i := 0; i < 3; i++ {
+		ns, err := libshare.NewV0Namespace([]byte{0x10, 0, 0, 0, 0, 0, 0, 0, 0, byte(0x20 + 0x10*i)})
+		if err != nil {
+			t.Fatal(err)
+		}
+		p.nss = append(p.nss, ns)
+	}
+	for h := 0; h < n; h++ {
+		var blobs []*blob.Blob
+		ids := make([][]int64, 3)
+		for k := 0; k < 2; k++ { // namespace 2 never has blobs
+			cnt := rng.Intn(3)
+			for j := 0; j < cnt; j++ {
+				b, err := blob.NewBlobV0(p.nss[k], rng.Bytes(1+rng.Intn(200)))
+				if err != nil {
+					t.Fatal(err)
+				}
+				blobs = append(blobs, b)
+				ids[k] = append(ids[k], c20fID(b.Commitment))
+			}
+		}
+		shares, err := blob.BlobsToShares(blobs...)
+		if err != nil {
+			t.Fatal(err)
+		}
+		ods := 1
+		for ods*ods < len(shares) {
+			ods *= 2
+		}
+		shares = append(shares, libshare.TailPaddingShares(ods*ods-len(shares))...)
+		sq, err := rsmt2d.ComputeExtendedDataSquare(libshare.ToBytes(shares), share.DefaultRSMT2DCodec(), wrapper.NewConstructor(uint64(ods)))
+		if err != nil {
+			t.Fatal(err)
+		}
+		p.edsses = append(p.edsses, sq)
+		p.ids = append(p.ids, ids)
+	}
+	p.headers = headertest.ExtendedHeadersFromEdsses(t, p.edsses)
+	return p
+}
+
+// ---------------------------------------------------------------- recorded cases
+
+type c20fEv struct {
+	Kind  string `json:"kind"` // publish | puberr | next | feedtick | recv | handoff | cancel | fail | ok | send | tick | consume | stop
+	H     int    `json:"h,omitempty"`
+	Obs   bool   `json:"obs,omitempty"` // QLen / Taken were observed after this event (a quiescent point)
+	QLen  int    `json:"qlen,omitempty"`
+	Taken int    `json:"taken,omitempty"`
+}
+
+type c20fResp struct {
+	Height int64   `json:"height"`
+	IDs    []int64 `json:"ids"`
+}
+
+type c20fSubJS struct {
+	NS      int        `json:"ns"`
+	Events  []c20fEv   `json:"events"`
+	Got     []c20fResp `json:"got"`
+	Closed  bool       `json:"closed"`
+	FClosed bool       `json:"feed_closed"`
+}
+
+type c20fCase struct {
+	Kind string      `json:"kind"` // "feed" | "compose"
+	Seed uint64      `json:"seed"`
+	Subs []c20fSubJS `json:"subs"`
+}
+
+// ================================================================ part 1: the feed alone
+
+type c20fAlone struct {
+	r    *zv.Run
+	seed uint64
+	bad  bool
+
+	src    *c20fSource
+	ch     <-chan *header.ExtendedHeader
+	cancel context.CancelFunc
+	hdrs   []*header.ExtendedHeader
+
+	// reference state, mirrors fstate of Blob/Feed.v
+	pc        string // wait | hold | closed
+	srcq      []int  // ready in the source: index into hdrs + 1, or -1 = error
+	cancelled bool
+	published []int
+	taken     int
+
+	events []c20fEv
+	got    []c20fResp
+}
+
+func (x *c20fAlone) snapshot() c20fCase {
+	return c20fCase{Kind: "feed", Seed: x.seed, Subs: []c20fSubJS{{Events: x.events, Got: x.got, FClosed: x.pc == "closed"}}}
+}
+
+func (x *c20fAlone) violation(sig, desc string) {
+	x.bad = true
+	x.r.Violation(sig, desc, x.snapshot())
+}
+
+func (x *c20fAlone) observe() {
+	if n := len(x.events); n > 0 {
+		x.events[n-1].Obs = true
+		x.events[n-1].Taken = int(x.src.taken.Load())
+	}
+}
+
+func (x *c20fAlone) waitTaken(n int) bool {
+	deadline := time.Now().Add(c20fWatchdog)
+	for int(x.src.taken.Load()) < n {
+		if time.Now().After(deadline) {
+			x.violation("feed:header-not-taken", fmt.Sprintf("the forwarder waits in NextHeader, the source has header %d ready: it was not taken", n))
+			return false
+		}
+		c20fPause()
+	}
+	return true
+}
+
+func (x *c20fAlone) waitClosed(what string) bool {
+	deadline := time.Now().Add(c20fWatchdog)
+	for !(x.src.cancels.Load() >= 1 && c20fHdrChClosed(x.ch)) {
+		if time.Now().After(deadline) {
+			x.violation("feed:not-closed", fmt.Sprintf("%s: the feed did not cancel its subscription and close its channel (Cancel calls %d, closed %v)", what, x.src.cancels.Load(), c20fHdrChClosed(x.ch)))
+			return false
+		}
+		c20fPause()
+	}
+	// whatever is still readable after the closing (nothing, for an unbuffered channel)
+	for {
+		h, open := <-x.ch
+		if !open {
+			break
+		}
+		x.got = append(x.got, c20fResp{Height: int64(h.Height()), IDs: []int64{}})
+	}
+	x.pc = "closed"
+	return true
+}
+
+func (x *c20fAlone) settle() {
+	for !x.bad {
+		switch {
+		case x.pc != "closed" && x.cancelled:
+			x.events = append(x.events, c20fEv{Kind: "feedtick"})
+			if !x.waitClosed("context cancelled") {
+				return
+			}
+		case x.pc == "wait" && len(x.srcq) > 0:
+			it := x.srcq[0]
+			x.srcq = x.srcq[1:]
+			x.events = append(x.events, c20fEv{Kind: "next"})
+			if it < 0 {
+				if !x.waitClosed("NextHeader returned an error") {
+					return
+				}
+			} else {
+				x.taken++
+				x.pc = "hold"
+				if !x.waitTaken(x.taken) {
+					return
+				}
+			}
+		default:
+			if x.pc != "closed" && (x.src.cancels.Load() > 0 || c20fHdrChClosed(x.ch)) {
+				x.violation("feed:closed-without-cause", "the feed closed although its context is live and the source returned no error")
+				return
+			}
+			if len(x.srcq) >= c20fCap {
+				c20fYield(x.src, len(x.published))
+			}
+			x.observe()
+			return
+		}
+	}
+}
+
+func (x *c20fAlone) publish() {
+	i := len(x.published)
+	if i >= len(x.hdrs) {
+		return
+	}
+	x.published = append(x.published, i+1)
+	x.srcq = append(x.srcq, i+1)
+	x.events = append(x.events, c20fEv{Kind: "publish", H: i + 1})
+	x.src.push(c20fItem{h: x.hdrs[i]})
+	x.settle()
+}
+
+func (x *c20fAlone) publishErr() {
+	x.srcq = append(x.srcq, -1)
+	x.events = append(x.events, c20fEv{Kind: "puberr"})
+	x.src.push(c20fItem{err: true})
+	x.settle()
+}
+
+// recv: the forwarder holds header number i (0-based): the reader receives it.
+func (x *c20fAlone) recv() {
+	i := len(x.got)
+	want := x.published[i]
+	deadline := time.Now().Add(c20fWatchdog)
+	for {
+		var h *header.ExtendedHeader
+		var open, have bool
+		select {
+		case h, open = <-x.ch:
+			have = true
+		default:
+		}
+		if !have && int(x.src.calls.Load()) >= i+2 {
+			// NextHeader was called again after it had returned header i: the forwarder is past its select for header i.
+			// The header was then sent to this reader (the only one) or it is in the channel - or it is gone.
+			select {
+			case h, open = <-x.ch:
+				have = true
+			default:
+				x.violation("feed:header-dropped", fmt.Sprintf(
+					"feed alone: header %d (height %d) was handed out by the source, the forwarder went on to ask for the next one (NextHeader calls %d, handed out %d), "+
+						"yet the reader never received it and the channel is empty: the height is lost (received so far: %d headers)",
+					i, x.hdrs[want-1].Height(), x.src.calls.Load(), x.src.taken.Load(), len(x.got)))
+				return
+			}
+		}
+		if have {
+			if !open {
+				x.violation("feed:closed-without-cause", fmt.Sprintf("feed alone: the channel is closed although header %d is in the forwarder's hand and nothing ended the feed", i))
+				return
+			}
+			x.got = append(x.got, c20fResp{Height: int64(h.Height()), IDs: []int64{}})
+			if h != x.hdrs[want-1] {
+				kind := "feed:gap"
+				for _, p := range x.published[:i] {
+					if x.hdrs[p-1] == h {
+						kind = "feed:duplicate-or-reorder"
+					}
+				}
+				x.violation(kind, fmt.Sprintf("feed alone: the reader received height %d as its header number %d, the source made height %d ready at that position", h.Height(), i, x.hdrs[want-1].Height()))
+				return
+			}
+			x.pc = "wait"
+			x.events = append(x.events, c20fEv{Kind: "recv"})
+			x.settle()
+			return
+		}
+		if time.Now().After(deadline) {
+			x.violation("feed:header-not-sent", fmt.Sprintf("feed alone: header %d is in the forwarder's hand and the reader is receiving: nothing arrived", i))
+			return
+		}
+		c20fPause()
+	}
+}
+
+func (x *c20fAlone) doCancel() {
+	x.cancel()
+	x.cancelled = true
+	x.events = append(x.events, c20fEv{Kind: "cancel"})
+	x.settle()
+}
+
+func c20fRunAlone(r *zv.Run, hdrs []*header.ExtendedHeader, seed uint64) *c20fAlone {
+	rng := zv.NewRand(seed)
+	x := &c20fAlone{r: r, seed: seed, hdrs: hdrs, pc: "wait", src: c20fNewSource()}
+	hs := &Service{sub: &c20fSubscriber{next: x.src}}
+	ctx, cancel := context.WithCancel(context.Background())
+	x.cancel = cancel
+	ch, err := hs.Subscribe(ctx) // the real feed
+	if err != nil {
+		x.violation("harness", "Subscribe: "+err.Error())
+		return x
+	}
+	x.ch = ch
+	defer func() {
+		cancel()
+		deadline := time.Now().Add(c20fWatchdog)
+		for !c20fHdrChClosed(ch) && time.Now().Before(deadline) {
+			c20fPause()
+		}
+	}()
+	mode := rng.Intn(4) // 0 lockstep, 1 slow reader, 2 bursts of 17..40 with no read, 3 mixed
+	steps := 10 + rng.Intn(60)
+	endAt := steps
+	if rng.Chance(50) {
+		endAt = rng.Intn(steps)
+	}
+	erred := false
+	r.Count("feed-mode", []string{"lockstep", "slow-reader", "bursts", "mixed"}[mode])
+	for step := 0; step < steps && !x.bad && x.pc != "closed"; step++ {
+		if step == endAt {
+			if rng.Bool() {
+				r.Count("feed-end", "cancel@"+x.pc)
+				x.doCancel()
+			} else if !erred {
+				erred = true
+				r.Count("feed-end", "source-error@"+x.pc)
+				x.publishErr()
+			}
+			continue
+		}
+		canRecv := x.pc == "hold"
+		pRecv := 50
+		switch mode {
+		case 0:
+			pRecv = 90
+		case 1:
+			pRecv = 20
+		case 2:
+			if len(x.srcq) == 0 && rng.Chance(30) && !erred {
+				n := 17 + rng.Intn(24)
+				r.Count("feed-event", "burst")
+				for k := 0; k < n && !x.bad; k++ {
+					x.publish()
+				}
+				continue
+			}
+			pRecv = 80
+		}
+		if canRecv && rng.Chance(pRecv) {
+			r.Count("feed-event", "recv")
+			x.recv()
+		} else if !erred {
+			r.Count("feed-event", "publish")
+			x.publish()
+		}
+	}
+	// most of the time: the reader catches up with everything the source made ready
+	if !x.bad && x.pc != "closed" && rng.Chance(75) {
+		for x.pc == "hold" && !x.bad {
+			x.recv()
+		}
+		if !x.bad && x.pc == "wait" && len(x.got) != len(x.published) {
+			x.violation("feed:gap", fmt.Sprintf("feed alone: the reader caught up and received %d headers, the source made %d ready", len(x.got), len(x.published)))
+		}
+	}
+	if len(x.published)-len(x.got) >= 17 {
+		r.Count("feed-final", "reader-17-or-more-behind")
+	}
+	r.Count("feed-final", "pc="+x.pc)
+	return x
+}
+
+func c20fHdrTerm(height int64, ids []int64) string {
+	zs := make([]string, len(ids))
+	for k, v := range ids {
+		zs[k] = zv.Z(v)
+	}
+	return zv.Tuple(zv.Z(height), zv.List(zs))
+}
+
+func c20fAloneTerm(x *c20fAlone) string {
+	evs := make([]string, len(x.events))
+	for j, e := range x.events {
+		var et string
+		switch e.Kind {
+		case "publish":
+			et = zv.App("FPublish", c20fHdrTerm(int64(x.hdrs[e.H-1].Height()), nil))
+		case "puberr":
+			et = "FPublishErr"
+		case "next":
+			et = "FNext"
+		case "recv":
+			et = "FRecv"
+		case "feedtick":
+			et = "FTick"
+		case "cancel":
+			et = "FCancel"
+		}
+		evs[j] = zv.Tuple(et, zv.Opt(e.Obs, zv.Nat(e.Taken)))
+	}
+	got := make([]string, len(x.got))
+	for j, g := range x.got {
+		got[j] = c20fHdrTerm(g.Height, nil)
+	}
+	return zv.Tuple(zv.List(evs), zv.List(got), zv.Bool(x.pc == "closed"))
+}
+
+// ================================================================ part 2: the feed wired into the real blob service
+
+type c20fKey struct{}
+
+type c20fSub struct {
+	idx     int
+	ns      int
+	ctx     context.Context
+	cancel  context.CancelFunc
+	src     *c20fSource
+	feedCh  <-chan *header.ExtendedHeader // the channel the real feed returned to the blob service
+	calls   chan uint64                   // a getAll call reached the header getter (height)
+	outcome chan bool                     // scripted result of that call
+	ch      <-chan *blob.SubscriptionResponse
+
+	// reference state, mirrors cstate of Blob/Feed.v
+	fpc       string // wait | hold | closed
+	hold      int
+	srcq      []int // heights ready in the source, -1 = error
+	bpc       string // idle | retry | closed
+	cur       int
+	queue     int
+	cancelled bool
+	stopped   bool
+	fclosed   bool
+	erred     bool
+	published []int // heights the source made ready, in order
+	delivered []int // heights handed to the blob producer
+	taken     int
+	nrecv     int
+
+	events []c20fEv
+	got    []c20fResp
+	closed bool
+
+	pace, fmode   int
+	outageLeft    int // long outage: headers the source still makes ready before the retrieval recovers
+	failing       bool
+	sawLongOutage bool
+}
+
+type c20fComp struct {
+	r    *zv.Run
+	pool *c20fPool
+	svc  *blob.Service
+	hsub *c20fSubscriber
+	subs []*c20fSub
+	bad  bool
+	seed uint64
+}
+
+func (x *c20fComp) snapshot() c20fCase {
+	c := c20fCase{Kind: "compose", Seed: x.seed}
+	for _, s := range x.subs {
+		c.Subs = append(c.Subs, c20fSubJS{NS: s.ns, Events: s.events, Got: s.got, Closed: s.closed, FClosed: s.fpc == "closed"})
+	}
+	return c
+}
+
+func (x *c20fComp) violation(sig, desc string) {
+	x.bad = true
+	x.r.Violation(sig, desc, x.snapshot())
+}
+
+func c20fNewComp(t *testing.T, r *zv.Run, pool *c20fPool, seed uint64) *c20fComp {
+	x := &c20fComp{r: r, pool: pool, seed: seed, hsub: &c20fSubscriber{}}
+	headerServ := &Service{sub: x.hsub}
+	byHeight := func(ctx context.Context, height uint64) (*header.ExtendedHeader, error) {
+		if s, ok := ctx.Value(c20fKey{}).(*c20fSub); ok {
+			s.calls <- height
+			res, open := <-s.outcome
+			if !open || !res {
+				return nil, errors.New("scripted retrieval failure")
+			}
+		}
+		if height == 0 || int(height) > len(pool.headers) {
+			return nil, errors.New("no such header")
+		}
+		return pool.headers[height-1], nil
+	}
+	// as nodebuilder/blob/module.go: the header service's Subscribe is the blob service's header feed
+	// (the wrapper only notes which channel the real Subscribe returned)
+	subscribeFn := func(ctx context.Context) (<-chan *header.ExtendedHeader, error) {
+		ch, err := headerServ.Subscribe(ctx)
+		if s, ok := ctx.Value(c20fKey{}).(*c20fSub); ok {
+			s.feedCh = ch
+		}
+		return ch, err
+	}
+	getter := mock.NewMockGetter(gomock.NewController(t))
+	getter.EXPECT().GetNamespaceData(gomock.Any(), gomock.Any(), gomock.Any()).AnyTimes().
+		DoAndReturn(func(ctx context.Context, h *header.ExtendedHeader, ns libshare.Namespace) (shwap.NamespaceData, error) {
+			return eds.NamespaceData(context.Background(), &eds.Rsmt2D{ExtendedDataSquare: pool.edsses[h.Height()-1]}, ns)
+		})
+	x.svc = blob.NewService(nil, getter, byHeight, subscribeFn)
+	return x
+}
+
+func (x *c20fComp) subscribe(idx, ns int) bool {
+	s := &c20fSub{idx: idx, ns: ns, src: c20fNewSource(), calls: make(chan uint64, 4096), outcome: make(chan bool), fpc: "wait", bpc: "idle"}
+	s.ctx, s.cancel = context.WithCancel(context.WithValue(context.Background(), c20fKey{}, s))
+	x.hsub.mu.Lock()
+	x.hsub.next = s.src
+	x.hsub.mu.Unlock()
+	ch, err := x.svc.Subscribe(s.ctx, x.pool.nss[ns])
+	if err != nil || s.feedCh == nil {
+		x.violation("harness", fmt.Sprintf("Subscribe: %v", err))
+		return false
+	}
+	s.ch = ch
+	x.subs = append(x.subs, s)
+	return true
+}
+
+func (s *c20fSub) ended() bool { return s.cancelled || s.stopped }
+
+func (s *c20fSub) ev(kind string, h int) { s.events = append(s.events, c20fEv{Kind: kind, H: h}) }
+
+func (s *c20fSub) observe() {
+	if n := len(s.events); n > 0 {
+		s.events[n-1].Obs = true
+		s.events[n-1].QLen = len(s.ch)
+		s.events[n-1].Taken = int(s.src.taken.Load())
+	}
+}
+
+// check: one response received; it must be the response owed for the next header the source made ready.
+func (x *c20fComp) check(s *c20fSub, resp *blob.SubscriptionResponse) {
+	got := c20fResp{IDs: []int64{}}
+	if resp != nil {
+		got.Height = int64(resp.Height)
+		for _, b := range resp.Blobs {
+			got.IDs = append(got.IDs, c20fID(b.Commitment))
+		}
+	}
+	s.got = append(s.got, got)
+	i := s.nrecv
+	s.nrecv++
+	if i >= len(s.published) {
+		x.violation("feed:response-without-header", fmt.Sprintf("sub %d: response %d (height %d) although the source made only %d headers ready", s.idx, i, got.Height, len(s.published)))
+		return
+	}
+	h := s.published[i]
+	want := x.pool.ids[h-1][s.ns]
+	okIDs := len(want) == len(got.IDs)
+	for k := 0; okIDs && k < len(want); k++ {
+		okIDs = want[k] == got.IDs[k]
+	}
+	if resp == nil || got.Height != int64(h) || resp.Header != &x.pool.headers[h-1].RawHeader || !okIDs {
+		kind := "feed:wrong-blobs"
+		if got.Height != int64(h) {
+			kind = "feed:gap"
+			for _, p := range s.published[:i] {
+				if int64(p) == got.Height {
+					kind = "feed:duplicate-or-reorder"
+				}
+			}
+		}
+		x.violation(kind, fmt.Sprintf(
+			"sub %d (namespace %d): response %d carries height %d blobs %v; owed is height %d blobs %v - the source made ready, in order, %v",
+			s.idx, s.ns, i, got.Height, got.IDs, h, want, s.published))
+	}
+}
+
+// lostCheck: while the producer is known not to read the feed (it is inside a retrieval the harness holds), the counters
+// of the source are stable once the forwarder is back in NextHeader. A header handed out by the source that was neither
+// handed to the producer nor sits in the feed's channel is then lost for good.
+func (x *c20fComp) lostCheck(s *c20fSub) {
+	if s.bpc != "retry" || s.fpc == "closed" {
+		return
+	}
+	t := int(s.src.taken.Load())
+	c := int(s.src.calls.Load())
+	if c <= t {
+		return // the forwarder may still have the newest header in its hand
+	}
+	l := len(s.feedCh)
+	if lost := t - len(s.delivered) - l; lost > 0 {
+		x.violation("feed:header-dropped", fmt.Sprintf(
+			"sub %d: the source handed out %d headers (heights %v) and the forwarder is asking for the next one; the blob subscription has received %d of them "+
+				"(it is inside the retrieval of height %d and reads nothing), %d sit in the feed's channel (capacity %d): %d heights are lost between the source and the subscription",
+			s.idx, t, s.published[:min(t, len(s.published))], len(s.delivered), s.cur, l, cap(s.feedCh), lost))
+	}
+}
+
+func (x *c20fComp) waitTaken(s *c20fSub, n int) bool {
+	deadline := time.Now().Add(c20fWatchdog)
+	for int(s.src.taken.Load()) < n {
+		if time.Now().After(deadline) {
+			x.violation("feed:header-not-taken", fmt.Sprintf("sub %d: the forwarder waits in NextHeader and the source has its header number %d ready: it was not taken", s.idx, n))
+			return false
+		}
+		c20fPause()
+	}
+	return true
+}
+
+func (x *c20fComp) waitFeedClosed(s *c20fSub, what string) bool {
+	deadline := time.Now().Add(c20fWatchdog)
+	for !(s.src.cancels.Load() >= 1 && c20fHdrChClosed(s.feedCh)) {
+		if time.Now().After(deadline) {
+			x.violation("feed:not-closed", fmt.Sprintf("sub %d: %s: the feed did not cancel its subscription and close its channel", s.idx, what))
+			return false
+		}
+		c20fPause()
+	}
+	s.fpc = "closed"
+	s.fclosed = true
+	return true
+}
+
+// waitClosed waits until the producer has closed the response channel, then reads what it left in it.
+func (x *c20fComp) waitClosed(s *c20fSub, kind string, h int, sig, what string, alsoCalls bool) bool {
+	deadline := time.Now().Add(c20fWatchdog)
+	for !c20fRespChClosed(s.ch) {
+		if alsoCalls {
+			select {
+			case hh := <-s.calls:
+				x.violation(sig, fmt.Sprintf("sub %d: %s: the producer started another retrieval (height %d) instead of closing the stream", s.idx, what, hh))
+				return false
+			default:
+			}
+		}
+		if time.Now().After(deadline) {
+			x.violation("not-closed", fmt.Sprintf("sub %d: %s: the stream was not closed within the watchdog", s.idx, what))
+			return false
+		}
+		c20fPause()
+	}
+	n := len(s.ch)
+	s.ev(kind, h)
+	for k := n - 1; k >= 0; k-- {
+		resp, open := <-s.ch
+		if !open {
+			x.violation("response-lost", fmt.Sprintf("sub %d: %d responses were buffered at the closing, fewer could be read", s.idx, n))
+			return false
+		}
+		x.check(s, resp)
+		if x.bad {
+			return false
+		}
+		s.ev("consume", 0)
+	}
+	if _, open := <-s.ch; open {
+		x.violation("feed:response-without-header", fmt.Sprintf("sub %d: a response appeared after the stream was closed", s.idx))
+		return false
+	}
+	s.queue = 0
+	s.bpc, s.closed = "closed", true
+	return true
+}
+
+func (x *c20fComp) waitCall(s *c20fSub, h int, what string) bool {
+	deadline := time.Now().Add(c20fWatchdog)
+	for {
+		select {
+		case hh := <-s.calls:
+			if int(hh) != h {
+				sig := "feed:duplicate-or-reorder"
+				pos := len(s.delivered) // h is the newest delivered height
+				for _, p := range s.published[min(pos, len(s.published)):] {
+					if p == int(hh) {
+						sig = "feed:gap"
+					}
+				}
+				x.violation(sig, fmt.Sprintf(
+					"sub %d: %s: the producer started the retrieval of height %d; the next height the source made ready is %d and it has not been retrieved: "+
+						"it is skipped (source order %v, handed to the producer so far %v)", s.idx, what, hh, h, s.published, s.delivered))
+				return false
+			}
+			return true
+		default:
+		}
+		if c20fRespChClosed(s.ch) {
+			x.violation("closed-without-cause", fmt.Sprintf(
+				"sub %d: %s: the stream was closed instead of retrieving height %d (cancel=%v stop=%v feedclosed=%v unread=%d)",
+				s.idx, what, h, s.cancelled, s.stopped, s.fclosed, s.queue))
+			return false
+		}
+		if len(s.ch) > s.queue {
+			x.violation("response-without-retrieval", fmt.Sprintf("sub %d: %s: a response was sent for height %d although its retrieval has not succeeded", s.idx, what, h))
+			return false
+		}
+		if time.Now().After(deadline) {
+			x.violation("feed:gap", fmt.Sprintf("sub %d: %s: no retrieval for height %d was started although the source handed it out (source order %v, handed to the producer so far %v)",
+				s.idx, what, h, s.published, s.delivered))
+			return false
+		}
+		c20fPause()
+	}
+}
+
+// settle runs the internal steps that the composition takes on its own until every goroutine is blocked, waiting for the
+// observable effect of each one.
+func (x *c20fComp) settle(s *c20fSub) {
+	for !x.bad {
+		switch {
+		case s.bpc == "idle" && (s.cancelled || s.stopped || s.fclosed):
+			if !x.waitClosed(s, "tick", 0, "not-closed", fmt.Sprintf("producer idle with cancel=%v stop=%v feedclosed=%v", s.cancelled, s.stopped, s.fclosed), false) {
+				return
+			}
+		case s.fpc != "closed" && s.cancelled:
+			s.ev("feedtick", 0)
+			if !x.waitFeedClosed(s, "context cancelled") {
+				return
+			}
+		case s.fpc == "wait" && len(s.srcq) > 0:
+			it := s.srcq[0]
+			s.srcq = s.srcq[1:]
+			s.ev("next", 0)
+			if it < 0 {
+				if !x.waitFeedClosed(s, "NextHeader returned an error") {
+					return
+				}
+			} else {
+				s.taken++
+				s.fpc, s.hold = "hold", it
+				if !x.waitTaken(s, s.taken) {
+					return
+				}
+			}
+		case s.fpc == "hold" && s.bpc == "idle":
+			h := s.hold
+			s.fpc = "wait"
+			s.delivered = append(s.delivered, h)
+			if s.queue == c20fCap {
+				if !x.waitClosed(s, "handoff", 0, "not-closed", fmt.Sprintf("header %d handed over with %d responses unread", h, s.queue), false) {
+					return
+				}
+			} else {
+				s.bpc, s.cur = "retry", h
+				if !x.waitCall(s, h, "after the header was handed over") {
+					return
+				}
+				s.ev("handoff", 0)
+			}
+		default:
+			if s.fpc != "closed" && (s.src.cancels.Load() > 0 || c20fHdrChClosed(s.feedCh)) {
+				x.violation("feed:closed-without-cause", fmt.Sprintf("sub %d: the feed closed although the subscriber's context is live and the source returned no error", s.idx))
+				return
+			}
+			if len(s.srcq) >= c20fCap {
+				c20fYield(s.src, len(s.published))
+			}
+			x.lostCheck(s)
+			s.observe()
+			return
+		}
+	}
+}
+
+// ---- the stimuli
+
+func (x *c20fComp) evPublish(s *c20fSub, h int) {
+	s.published = append(s.published, h)
+	s.srcq = append(s.srcq, h)
+	s.ev("publish", h)
+	s.src.push(c20fItem{h: x.pool.headers[h-1]})
+	x.settle(s)
+}
+
+func (x *c20fComp) evPublishErr(s *c20fSub) {
+	s.erred = true
+	s.srcq = append(s.srcq, -1)
+	s.ev("puberr", 0)
+	s.src.push(c20fItem{err: true})
+	x.settle(s)
+}
+
+func (x *c20fComp) evOutcome(s *c20fSub, ok bool) {
+	kind := "fail"
+	if ok {
+		kind = "ok"
+	}
+	select {
+	case s.outcome <- ok:
+	case <-time.After(c20fWatchdog):
+		x.violation("harness", "no retrieval in flight")
+		return
+	}
+	if s.ended() {
+		sig := "cancel-ignored-while-retrying"
+		if !s.cancelled {
+			sig = "stop-ignored-while-retrying"
+		}
+		if x.waitClosed(s, kind, 0, sig, fmt.Sprintf("retrieval of height %d returned (ok=%v) after cancel=%v stop=%v", s.cur, ok, s.cancelled, s.stopped), true) {
+			x.settle(s)
+		}
+		return
+	}
+	if !ok {
+		if !x.waitCall(s, s.cur, "after a failed retrieval") {
+			return
+		}
+		s.ev("fail", 0)
+		x.settle(s)
+		return
+	}
+	deadline := time.Now().Add(c20fWatchdog)
+	for len(s.ch) != s.queue+1 {
+		if time.Now().After(deadline) {
+			x.violation("response-not-sent", fmt.Sprintf("sub %d: the response for height %d was not sent (channel length %d, expected %d)", s.idx, s.cur, len(s.ch), s.queue+1))
+			return
+		}
+		c20fPause()
+	}
+	s.ev("ok", 0)
+	s.queue++
+	s.bpc = "idle"
+	s.ev("send", 0)
+	x.settle(s)
+}
+
+func (x *c20fComp) evConsume(s *c20fSub) {
+	select {
+	case resp, open := <-s.ch:
+		if !open {
+			x.violation("closed-without-cause", fmt.Sprintf("sub %d: the stream is closed although %d responses are unread and nothing ended it", s.idx, s.queue))
+			return
+		}
+		x.check(s, resp)
+	case <-time.After(c20fWatchdog):
+		x.violation("response-lost", fmt.Sprintf("sub %d: %d responses should be readable, none arrived", s.idx, s.queue))
+		return
+	}
+	s.queue--
+	s.ev("consume", 0)
+	if !x.bad {
+		x.settle(s)
+	}
+}
+
+func (x *c20fComp) evCancel(s *c20fSub) {
+	s.cancel()
+	s.cancelled = true
+	s.ev("cancel", 0)
+	x.settle(s)
+}
+
+func (x *c20fComp) evStop() {
+	if err := x.svc.Stop(context.Background()); err != nil {
+		x.violation("harness", "Stop: "+err.Error())
+		return
+	}
+	for _, s := range x.subs {
+		s.stopped = true
+		s.ev("stop", 0)
+	}
+	for _, s := range x.subs {
+		if !x.bad {
+			x.settle(s)
+		}
+	}
+}
+
+func (x *c20fComp) cleanup() {
+	for _, s := range x.subs {
+		s.cancel()
+		close(s.outcome)
+	}
+	_ = x.svc.Stop(context.Background())
+	for _, s := range x.subs {
+		deadline := time.After(c20fWatchdog)
+	drain:
+		for {
+			select {
+			case _, open := <-s.ch:
+				if !open {
+					break drain
+				}
+			case <-s.calls:
+			case <-deadline:
+				break drain
+			}
+		}
+		until := time.Now().Add(c20fWatchdog)
+		for !c20fHdrChClosed(s.feedCh) && time.Now().Before(until) {
+			c20fPause()
+		}
+	}
+}
+
+func c20fRunComp(t *testing.T, r *zv.Run, pool *c20fPool, seed uint64) *c20fComp {
+	rng := zv.NewRand(seed)
+	x := c20fNewComp(t, r, pool, seed)
+	if err := x.svc.Start(context.Background()); err != nil {
+		t.Fatal(err)
+	}
+	defer x.cleanup()
+	nsubs := 1 + rng.Intn(2)
+	perm := []int{0, 1, 2}
+	for i := 2; i > 0; i-- {
+		j := rng.Intn(i + 1)
+		perm[i], perm[j] = perm[j], perm[i]
+	}
+	outageCase := rng.Chance(45)
+	for i := 0; i < nsubs; i++ {
+		if !x.subscribe(i, perm[i]) {
+			return x
+		}
+		s := x.subs[i]
+		s.pace = rng.Intn(3)  // 0 fast, 1 slow, 2 stalled
+		s.fmode = rng.Intn(4) // 0 never fails, 1 sometimes, 2 bursts, 3 keeps failing once it starts
+		if outageCase && (i == 0 || rng.Bool()) {
+			s.fmode = 4 // long outage: once a retrieval fails it keeps failing while the source makes 18..40 more headers ready
+			if s.pace == 2 {
+				s.pace = rng.Intn(2)
+			}
+		}
+	}
+	next := make([]int, nsubs)
+	for i := range next {
+		next[i] = 1 + rng.Intn(3)
+	}
+	stopped := false
+	steps := 15 + rng.Intn(70)
+	if outageCase {
+		steps = 150 + rng.Intn(120)
+	} else if rng.Chance(25) {
+		steps = 90 + rng.Intn(60)
+	}
+	endAt := steps
+	if rng.Chance(60) {
+		endAt = rng.Intn(steps)
+	}
+	for step := 0; step < steps && !x.bad; step++ {
+		i := rng.Intn(nsubs)
+		s := x.subs[i]
+		if step == endAt {
+			switch rng.Intn(3) {
+			case 0:
+				if s.bpc != "closed" && !s.cancelled {
+					r.Count("end", "cancel@"+s.bpc+"/"+s.fpc)
+					x.evCancel(s)
+				}
+			case 1:
+				if !stopped {
+					stopped = true
+					for _, q := range x.subs {
+						r.Count("end", "stop@"+q.bpc+"/"+q.fpc)
+					}
+					x.evStop()
+				}
+			default:
+				if s.bpc != "closed" && !s.erred && s.fpc != "closed" {
+					r.Count("end", "source-error@"+s.bpc+"/"+s.fpc)
+					x.evPublishErr(s)
+				}
+			}
+			continue
+		}
+		if s.bpc == "closed" {
+			continue
+		}
+		// what the source does: in an outage it goes on producing; otherwise it is mostly a little ahead of the subscription
+		publishable := !s.erred && s.fpc != "closed"
+		pPublish := 35
+		if s.outageLeft > 0 {
+			pPublish = 85
+		} else if len(s.srcq) > 3 {
+			pPublish = 10
+		}
+		if s.bpc == "idle" && s.queue == 0 {
+			pPublish = 100 // nothing else can happen
+		}
+		if publishable && rng.Chance(pPublish) {
+			h := next[i]
+			if rng.Chance(3) || h > len(pool.headers) { // the source is not this harness's to order: repeats and jumps too
+				h = 1 + rng.Intn(len(pool.headers))
+			}
+			next[i] = h + 1
+			r.Count("event", "publish")
+			x.evPublish(s, h)
+			if s.outageLeft > 0 {
+				s.outageLeft--
+			}
+			continue
+		}
+		switch s.bpc {
+		case "retry":
+			if s.pace != 2 && s.queue > 0 && rng.Chance(25) {
+				r.Count("event", "consume")
+				x.evConsume(s)
+				continue
+			}
+			fail := false
+			switch s.fmode {
+			case 1:
+				fail = rng.Chance(30)
+			case 2:
+				if s.failing {
+					fail = rng.Chance(80)
+				} else {
+					fail = rng.Chance(15)
+				}
+			case 3:
+				fail = s.failing || rng.Chance(10)
+			case 4:
+				if s.outageLeft > 0 {
+					fail = true
+				} else if !s.failing && !s.sawLongOutage && rng.Chance(35) {
+					fail = true
+					s.outageLeft = 18 + rng.Intn(23)
+					s.sawLongOutage = true
+					r.Count("event", "long-outage-begins")
+				}
+			}
+			if s.ended() && s.fmode != 0 && rng.Chance(70) {
+				fail = true
+			}
+			s.failing = fail
+			r.Count("event", map[bool]string{true: "getall-fail", false: "getall-ok"}[fail])
+			x.evOutcome(s, !fail)
+		case "idle":
+			wantConsume := false
+			switch s.pace {
+			case 0:
+				wantConsume = s.queue > 0 && rng.Chance(85)
+			case 1:
+				wantConsume = s.queue > 0 && rng.Chance(30)
+			}
+			if wantConsume {
+				r.Count("event", "consume")
+				x.evConsume(s)
+			}
+		}
+	}
+	// most of the time: every retrieval recovers and the consumer reads everything - then every header of the source is owed
+	if !x.bad && rng.Chance(70) {
+		for _, s := range x.subs {
+			for guard := 0; guard < 400 && !x.bad && s.bpc != "closed"; guard++ {
+				if s.bpc == "retry" {
+					x.evOutcome(s, true)
+				} else if s.queue > 0 {
+					x.evConsume(s)
+				} else {
+					break
+				}
+			}
+			if !x.bad && s.bpc == "idle" && s.fpc == "wait" && s.nrecv != len(s.published) {
+				x.violation("feed:gap", fmt.Sprintf("sub %d: everything recovered and was read: %d responses for %d headers of the source", s.idx, s.nrecv, len(s.published)))
+			}
+			if !x.bad && s.bpc == "idle" {
+				r.Count("final", "caught-up")
+			}
+		}
+	}
+	if !x.bad {
+		for _, s := range x.subs {
+			// what was sent is read in any case (the model is compared on everything that was sent)
+			for s.bpc != "closed" && s.queue > 0 && !x.bad {
+				x.evConsume(s)
+			}
+			if x.bad {
+				break
+			}
+			if s.bpc != "closed" {
+				if c20fRespChClosed(s.ch) {
+					x.violation("closed-without-cause", fmt.Sprintf("sub %d: the stream is closed at the end although nothing ended it (cancel=%v stop=%v feedclosed=%v pc=%s)", s.idx, s.cancelled, s.stopped, s.fclosed, s.bpc))
+				} else if len(s.ch) != s.queue {
+					x.violation("feed:response-without-header", fmt.Sprintf("sub %d: %d responses are readable at the end, %d were sent", s.idx, len(s.ch), s.queue))
+				}
+			}
+			r.Count("final", fmt.Sprintf("producer=%s feed=%s", s.bpc, s.fpc))
+			if s.sawLongOutage {
+				r.Count("final", "with-long-outage")
+			}
+		}
+	}
+	return x
+}
+
+func c20fCompTerm(x *c20fComp) string {
+	subs := make([]string, len(x.subs))
+	for i, s := range x.subs {
+		evs := make([]string, len(s.events))
+		for j, e := range s.events {
+			var et string
+			switch e.Kind {
+			case "publish":
+				et = zv.App("Publish", c20fHdrTerm(int64(e.H), x.pool.ids[e.H-1][s.ns]))
+			case "puberr":
+				et = "PublishErr"
+			case "next":
+				et = "Next"
+			case "feedtick":
+				et = "FeedTick"
+			case "handoff":
+				et = "Handoff"
+			case "cancel":
+				et = "CancelCtx"
+			case "fail":
+				et = "(B GetAllFail)"
+			case "ok":
+				et = "(B GetAllOk)"
+			case "send":
+				et = "(B Send)"
+			case "tick":
+				et = "(B Tick)"
+			case "consume":
+				et = "(B Consume)"
+			case "stop":
+				et = "(B StopService)"
+			}
+			obs := zv.None
+			if e.Obs {
+				obs = zv.Some(zv.Tuple(zv.Nat(e.QLen), zv.Nat(e.Taken)))
+			}
+			evs[j] = zv.Tuple(et, obs)
+		}
+		got := make([]string, len(s.got))
+		for j, g := range s.got {
+			got[j] = c20fHdrTerm(g.Height, g.IDs)
+		}
+		subs[i] = zv.Tuple(zv.List(evs), zv.List(got), zv.Bool(s.closed), zv.Bool(s.fpc == "closed"))
+	}
+	return zv.List(subs)
+}
+
+// ================================================================ the test
 
 func TestVerifC20Feed(t *testing.T) {
 	r := zv.Start(t, "C20")
 	defer r.Finish()
+	if v, err := strconv.Atoi(os.Getenv("VERIF_C20_WATCHDOG_S")); err == nil && v > 0 {
+		c20fWatchdog = time.Duration(v) * time.Second
+	}
+	if err := c20fSelfTest(); err != nil {
+		t.Fatalf("harness self-test: %v", err)
+	}
+	// several groups each: the driver evaluates the groups' files in parallel
+	var gfs, gcs []*zv.Group
+	for i := 0; i < 2; i++ {
+		gfs = append(gfs, r.Group(fmt.Sprintf("feed%d", i), c20fCoqHeader, "feed_case", "feed_mismatches"))
+	}
+	for i := 0; i < 4; i++ {
+		gcs = append(gcs, r.Group(fmt.Sprintf("compose%d", i), c20fCoqHeader, "comp_case", "comp_mismatches"))
+	}
+	nf, nc := 0, 0
+	pool := c20fBuildPool(t, zv.NewRand(r.Seed^0xc20f), 64)
+
+	alone := func(seed uint64) bool {
+		x := c20fRunAlone(r, pool.headers, seed)
+		if x.bad {
+			r.Count("case", "feed-abandoned")
+			return true
+		}
+		key := ""
+		if len(x.got) > 0 && (x.pc == "closed" || len(x.published)-len(x.got) >= 2) {
+			key = "feed-received-and-closed-or-reader-behind"
+		}
+		r.Count("case", "feed")
+		gfs[nf%len(gfs)].Case(c20fAloneTerm(x), x.snapshot(), key)
+		nf++
+		return false
+	}
+	comp := func(seed uint64) bool {
+		x := c20fRunComp(t, r, pool, seed)
+		if x.bad {
+			r.Count("case", "compose-abandoned")
+			return true
+		}
+		key := ""
+		for _, s := range x.subs {
+			fails := 0
+			for _, e := range s.events {
+				if e.Kind == "fail" {
+					fails++
+				}
+			}
+			if len(s.got) > 0 && (fails > 0 || s.closed) {
+				key = "responses-with-failures-or-closure"
+			}
+		}
+		r.Count("case", fmt.Sprintf("compose-subs=%d", len(x.subs)))
+		gcs[nc%len(gcs)].Case(c20fCompTerm(x), x.snapshot(), key)
+		nc++
+		return false
+	}
+
+	var rep c20fCase
+	if r.ReplayInput(&rep) {
+		switch rep.Kind {
+		case "feed":
+			alone(rep.Seed)
+		case "compose":
+			comp(rep.Seed)
+		} // otherwise: a replay of the other C20 harness
+		return
+	}
+	rng := r.Rand()
+	nAlone, nComp := r.N(400, 20000), r.N(220, 12000)
+	if v, err := strconv.Atoi(os.Getenv("VERIF_C20_N")); err == nil && v > 0 {
+		nAlone, nComp = v, v
+	}
+	bad := 0
+	for i := 0; i < nAlone && bad < 3; i++ {
+		if alone(rng.U64()) {
+			bad++
+		}
+	}
+	bad = 0
+	for i := 0; i < nComp && bad < 3; i++ {
+		if comp(rng.U64()) {
+			bad++
+		}
+	}
 }
